@@ -13,7 +13,9 @@
     `label e` (every position its own id: a tree without sharing); theorems are stated for
     every identity assignment they hold for.
   * the `try: … except RecursionError: pass` around the fallback `node.get_variables()` is about
-    CPython's stack and is not modelled (the fallback is the recursive `getVars`).
+    CPython's stack and is not modelled (the fallback is the recursive `getVars`); likewise the
+    `try: return expr.get_variables() / except RecursionError: pass` of `get_all_variables` (stack overflow of
+    the recursive arm falls through to the explicit-stack arm, which computes the same set).
 -/
 import Optyx.Syntax
 
